@@ -69,6 +69,7 @@ type Contract struct {
 	SafetyProps []string
 	FrameProps  []string
 	NoSafety    bool
+	Export      bool // lemma proved in bv mode and assumed (over the uninterpreted bit functions) in int mode
 	WrapArith   bool // int mode: model wrap-around exactly instead of proving its absence
 }
 
@@ -342,6 +343,8 @@ func (sp *Specs) loadFile(path string, goFile bool) error {
 						c.Arith = []string{head[k+1]}
 						k++
 					}
+				case "export":
+					c.Export = true
 				case "props":
 					c.Props = head[k+1:]
 					k = len(head)
